@@ -62,8 +62,8 @@ func verifDeserializeParams(batch arrow.RecordBatch, t reflect.Type) (reflect.Va
 	if verifParamsFail {
 		return reflect.Value{}, errors.New("parameter schema mismatch")
 	}
-	if batch.NumRows() == 0 {
-		// the real function indexes row 0 of every column
+	if batch.NumRows() == 0 && batch.NumCols() > 0 {
+		// the real function indexes row 0 of every column (a batch without columns binds nothing)
 		panic("runtime error: index out of range [0] with length 0")
 	}
 	return reflect.Value{}, nil
